@@ -29,6 +29,17 @@ def RegisterAtomic (facts : List AccessFact) : Bool :=
   -- the table does contain the accesses of `register` and of the cycle search (not vacuous)
   facts.any (fun a => a.fn == registerFns.headD 0 && a.write) && facts.any (fun a => a.fn == registerFns.getLastD 0)
 
+/-- a registry mutator does its lookup and its update of `shard.handlers` inside ONE write-locked critical
+section (all its accesses carry the same, non-zero, section mark and the write mode; it does write) -/
+def mutatorAtomic (facts : List AccessFact) (fn : Nat) : Bool :=
+  match facts.filter (fun a => a.fn == fn && a.loc == code_shard_handlers) with
+  | [] => false
+  | a :: rest => a.csec != 0 && (a :: rest).all (fun b => b.guardMode == 2 && b.csec == a.csec) &&
+      (a :: rest).any (·.write)
+
+/-- Subscribe, SubscribeContext, Unsubscribe, Clear and ClearAll are each one atomic step on the registry -/
+def RegistryOpsAtomic (facts : List AccessFact) : Bool := registryMutators.all (mutatorAtomic facts)
+
 def rankOf (l : Nat) : Nat := (lockRank.findIdx? (· == l)).getD lockRank.length
 
 /-- locks are only ever nested along the intended order -/
